@@ -338,6 +338,23 @@ impl Value {
         }
     }
 
+    /// Orders two values that compare as equal but are not the same value (1 and 1.0, 0.0 and -0.0), so that picking one of
+    /// several equal values (MIN, MAX, PERCENTILE) does not depend on the order in which they arrive
+    pub fn compare_representation(&self, other: &Value) -> Ordering {
+        match (self, other) {
+            (Value::Int(_), Value::Float(_)) => Ordering::Less,
+            (Value::Float(_), Value::Int(_)) => Ordering::Greater,
+            (Value::Float(x), Value::Float(y)) => x.0.total_cmp(&y.0),
+            (Value::Array(_, x), Value::Array(_, y)) => {
+                x.iter().zip(y.iter())
+                    .map(|(x, y)| x.compare_representation(y))
+                    .find(|ordering| *ordering != Ordering::Equal)
+                    .unwrap_or(Ordering::Equal)
+            }
+            _ => Ordering::Equal
+        }
+    }
+
     pub fn json_value(&self) -> serde_json::Value {
         match self {
             Value::Null => serde_json::Value::Null,
